@@ -20,10 +20,11 @@ PROPERTY = 'C08'
 TIMEOUT = 40.0
 CHUNK = 16
 FLOOR = 0.5
-RULE = ('det: every assignment of the 10 bound patterns {free,>=0,<=0,lower!=0,upper!=0,both,[0,u],[l,0],fixed 0,'
-        'fixed !=0} to n=2 variables x 7 row-sense mixes (1-3 rows of <=,>=,==) x 20 cone kinds x {min,max} '
+RULE = ('det: every assignment of the 10 bound patterns {free,>=0,<=0,lower<0,upper>0,lb<0<ub,[0,u],[l,0],fixed 0,'
+        'fixed >0} + every pair involving one of the 5 sign variants {lower>0, upper<0, lb<ub<0, 0<lb<ub, fixed<0} on '
+        '6 cone kinds (thorough: all 20), to n=2 variables x 7 row-sense mixes (1-3 rows of <=,>=,==) x 20 cone kinds x {min,max} '
         '(thorough: + all 39 ordered row mixes x 8 cone kinds, + n=3 x 3 row mixes x 5 cone kinds); '
-        'ro: 17 set kinds x 3 rule kinds x 6 bound pairs x 2 objective forms x {min,max}; dro: 4 supports x 3 '
+        'ro: 17 set kinds x 3 rule kinds x 9 bound pairs x 2 objective forms x {min,max}; dro: 4 supports x 3 '
         'expectation sets x 2 probability sets x 4 adaptations x {min,max}; mix: 3 front ends x 4 (cone-size order, '
         'sign) x 6 structural variants x {min,max}; hist: 7 models x 3 kinds of change x 6 histories x {min,max}.  '
         'A case is non-trivial when primal and '
@@ -47,19 +48,28 @@ ASSUMPTIONS = [
 TRUSTED = ['ECOS', 'SciPy/HiGHS linprog', 'Gurobi', 'CPython/NumPy']
 
 BPS = ['free', 'ge0', 'le0', 'lo', 'up', 'both', 'b0u', 'bl0', 'fix0', 'fixnz']
+# sign variants of the finite non-zero bounds: every sign class of lb / ub is present at EVERY palette
+# (lo: lb<0, lop: lb>0; up: ub>0, upn: ub<0; both: lb<0<ub, bothn: lb<ub<0, bothp: 0<lb<ub; fixnz: >0, fixn: <0)
+BPS_SIGN = ['lop', 'upn', 'bothn', 'bothp', 'fixn']
 # pattern -> 4 palettes of (lb, ub, centre)
 BP = {
     'free': [(None, None, 0.5)] * 4,
     'ge0': [(0.0, None, 1.0), (0.0, None, 0.5), (0.0, None, 1.5), (0.0, None, 0.75)],
     'le0': [(None, 0.0, -1.0), (None, 0.0, -0.5), (None, 0.0, -1.5), (None, 0.0, -0.75)],
-    'lo': [(-1.5, None, -0.5), (0.5, None, 1.5), (-0.5, None, 0.5), (1.0, None, 2.0)],
-    'up': [(None, 2.0, 1.0), (None, -0.5, -1.5), (None, 0.5, -0.5), (None, -1.0, -2.0)],
-    'both': [(-1.0, 1.5, 0.25), (0.5, 2.0, 1.25), (-2.0, -0.5, -1.25), (-0.5, 0.5, 0.0)],
+    'lo': [(-1.5, None, -0.5), (-0.5, None, 0.5), (-1.0, None, 0.0), (-2.0, None, -1.0)],
+    'lop': [(0.5, None, 1.5), (1.0, None, 2.0), (0.25, None, 1.25), (1.5, None, 2.5)],
+    'up': [(None, 2.0, 1.0), (None, 0.5, -0.5), (None, 1.0, 0.0), (None, 1.5, 0.5)],
+    'upn': [(None, -0.5, -1.5), (None, -1.0, -2.0), (None, -0.25, -1.25), (None, -1.5, -2.5)],
+    'both': [(-1.0, 1.5, 0.25), (-0.5, 0.5, 0.0), (-2.0, 1.0, -0.5), (-0.25, 2.0, 1.0)],
+    'bothn': [(-2.0, -0.5, -1.25), (-3.0, -1.0, -2.0), (-1.5, -0.25, -0.75), (-2.5, -1.5, -2.0)],
+    'bothp': [(0.5, 2.0, 1.25), (1.0, 3.0, 2.0), (0.25, 1.5, 0.75), (1.5, 2.5, 2.0)],
     'b0u': [(0.0, 2.0, 1.0), (0.0, 1.5, 0.75), (0.0, 3.0, 1.5), (0.0, 1.0, 0.5)],
     'bl0': [(-2.0, 0.0, -1.0), (-1.5, 0.0, -0.75), (-3.0, 0.0, -1.5), (-1.0, 0.0, -0.5)],
     'fix0': [(0.0, 0.0, 0.0)] * 4,
-    'fixnz': [(0.75, 0.75, 0.75), (-0.5, -0.5, -0.5), (1.0, 1.0, 1.0), (-1.25, -1.25, -1.25)],
+    'fixnz': [(0.75, 0.75, 0.75), (1.0, 1.0, 1.0), (0.5, 0.5, 0.5), (1.25, 1.25, 1.25)],
+    'fixn': [(-0.5, -0.5, -0.5), (-1.25, -1.25, -1.25), (-0.75, -0.75, -0.75), (-1.0, -1.0, -1.0)],
 }
+CONES_SIGN = ['none', 'norm', 'exp', 'norm+exp', 'cc1', 'cc2']     # cone kinds paired with the sign variants
 ROWS_Q = ['L', 'G', 'E', 'LG', 'GE', 'EE', 'LGE']
 ROWS_T = [''.join(p) for k in (1, 2, 3) for p in itertools.product('LGE', repeat=k)]
 CONES = ['none', 'norm', 'square', 'sumsqr', 'rsocone', 'quad', 'exp', 'log', 'entropy', 'kldiv', 'expcone',
@@ -69,7 +79,8 @@ CONES_T3 = ['none', 'norm', 'exp', 'norm+exp', 'cc2']
 RO_SETS = ['boxB', 'boxB0', 'boxBn', 'boxA', 'linf', 'l1', 'l2', 'poly', 'l2box', 'expset', 'l2exp', 'l2l2',
            'l2l2d', 'l2zero', 'sumsqr', 'square', 'l2cexp']
 RO_RULES = ['static', 'ldr', 'ldr0']
-RO_XBP = [('ge0', 'ge0'), ('lo', 'up'), ('both', 'free'), ('le0', 'b0u'), ('fix0', 'bl0'), ('fixnz', 'ge0')]
+RO_XBP = [('ge0', 'ge0'), ('lo', 'up'), ('both', 'free'), ('le0', 'b0u'), ('fix0', 'bl0'), ('fixnz', 'ge0'),
+          ('upn', 'lop'), ('bothn', 'bothp'), ('fixn', 'up')]      # detmix uses the first six
 RO_FORMS = ['mm', 'fa']
 DRO_SUPP = ['box', 'abs', 'l2lift', 'boxdiff']
 DRO_EXPT = ['none', 'mean', 'meaneq']
@@ -106,6 +117,14 @@ def gen_cases(tier, seed):
             for cone in CONES:
                 for sense in ('min', 'max'):
                     yield {'fam': 'det', 'bp': list(bp), 'rows': rw, 'cone': cone, 'sense': sense, 'pal': pal}
+    # every pair that involves a sign variant (negative finite ub, positive finite lb, both of one sign, fixed < 0)
+    for bp in itertools.product(BPS + BPS_SIGN, repeat=2):
+        if bp[0] in BPS and bp[1] in BPS:
+            continue
+        for rw in ROWS_Q:
+            for cone in (CONES if thorough else CONES_SIGN):
+                for sense in ('min', 'max'):
+                    yield {'fam': 'det', 'bp': list(bp), 'rows': rw, 'cone': cone, 'sense': sense, 'pal': pal}
     if thorough:
         # every ordered row-sense mix of 1-3 rows (n = 2) on the cone kinds that select different dual branches
         for bp in itertools.product(BPS, repeat=2):
@@ -139,6 +158,13 @@ def gen_cases(tier, seed):
                         for sense in ('min', 'max'):
                             yield {'fam': 'dro', 'supp': sp_, 'expt': ex, 'prob': pr, 'adapt': ad, 'sense': sense,
                                    'pal': p}
+        # a further here-and-now decision with a sign-variant bound pattern, pushed against its upper bound
+        for sp_ in DRO_SUPP:
+            for ad in DRO_ADAPT:
+                for qb in ('upn', 'bothn', 'lop', 'fixn'):
+                    for sense in ('min', 'max'):
+                        yield {'fam': 'dro', 'supp': sp_, 'expt': 'mean', 'prob': 'fixed', 'adapt': ad,
+                               'sense': sense, 'pal': p, 'qb': qb}
 
 
 def exhaustive(tier):
@@ -147,7 +173,7 @@ def exhaustive(tier):
 
 def bounds(tier):
     th = tier == 'thorough'
-    b = {'n_variables': 2, 'bound_patterns': len(BPS), 'row_mixes': len(ROWS_Q), 'cone_kinds': len(CONES),
+    b = {'n_variables': 2, 'bound_patterns': len(BPS), 'sign_variant_patterns': len(BPS_SIGN), 'row_mixes': len(ROWS_Q), 'cone_kinds': len(CONES),
          'ro_specs': len(RO_SETS) * len(RO_RULES) * len(RO_XBP) * len(RO_FORMS) * 2,
          'dro_specs': len(DRO_SUPP) * len(DRO_EXPT) * len(DRO_PROB) * len(DRO_ADAPT) * 2,
          'palettes_ro_dro': 4 if th else 1,
@@ -571,12 +597,26 @@ def build_dro(case):
         if lift:
             y.adapt(u)
             ops += 1
+    q = None
+    if case.get('qb'):
+        q = m.dvar()
+    cost = -0.5 * x + E(1.5 * y)
+    if q is not None:
+        cost = cost - 0.25 * q          # minimising pushes q up, against its (negative) upper bound
     if case['sense'] == 'min':
-        m.minsup(-0.5 * x + E(1.5 * y), fset)
+        m.minsup(cost, fset)
     else:
-        m.maxinf(0.5 * x - E(1.5 * y), fset)
+        m.maxinf(-1 * cost, fset)
     m.st(y >= x - z, y >= 0, y <= 8)
     m.st(x >= 0, x <= 4)
+    if q is not None:
+        lb, ub, _ = BP[case['qb']][pal]
+        if lb is not None:
+            m.st(q >= lb)
+        if ub is not None:
+            m.st(q <= ub)
+        m.st(1.0 * q <= RBOX, -1.0 * q <= RBOX)
+        ops += 5
     ops += 8
     return m, {'ops': ops, 'vars': (x, z)}
 
@@ -732,7 +772,7 @@ def run_case(case):
     if r['verdict'] == 'viol':
         bp = case.get('bp') or case.get('xbp') or []
         attributed = ''
-        if 'fixnz' in bp and fam == 'det':
+        if ('fixnz' in bp or 'fixn' in bp) and fam == 'det':
             # attribution run: the same program with the fixed-nonzero bounds written as equality rows
             m2, _ = build_det(case, fixed_as_rows=True)
             r2 = judge(m2)
